@@ -109,6 +109,9 @@ def run_relay(item):
     with World('rl') as w:
         be = w.backend('p0', role='primary')
         be.record_bytes = True
+        if item.get('flood_req'):
+            be.small_rcvbuf = True
+            be.body_stall = 1.2
         w.start(general=general, pools={'db': simple_pool([['127.0.0.1', be.port, 'primary']], pool_size=1,
                                                           mode=item.get('mode', 'transaction'))})
         c = Client(w.port, name='A', timeout=5.0, tls=bool(item.get('tls')))
@@ -133,6 +136,9 @@ def run_relay(item):
             if rng.random() < 0.3:
                 # pipelined: a second batch right behind the first (answered normally by the mock)
                 pass
+        elif item.get('flood_req'):
+            # a statement of many megabytes to a server that takes it late: the pooler's write meets a full socket
+            sent = W.Q('SELECT scripted ' + c.tag() + ' /*' + 'q' * rng.choice([9000000, 12000000]) + '*/')
         else:
             sent = W.Q('SELECT scripted ' + c.tag())
         if item.get('flood'):
@@ -147,8 +153,9 @@ def run_relay(item):
         got = b''
         sent_copy = b''
         why = ''
-        deadline = time.time() + (8.0 if not item.get('flood') else 30.0)
-        c.sock.settimeout(4.0 if not item.get('flood') else 10.0)
+        big = item.get('flood') or item.get('flood_req')
+        deadline = time.time() + (8.0 if not big else 30.0)
+        c.sock.settimeout(4.0 if not big else 10.0)
         done = False
         nseg = 0
         try:
